@@ -116,6 +116,9 @@ func runC17(in *Sx) *Sx {
 	if early { // a handler placed BEFORE the Renderer asks for Render: resolution must fail
 		f.Use(func(c flamego.Context, r flamego.Render) {})
 	}
+	if o := in.Field("outer"); o != nil && o.Args()[0].Atom == "1" {
+		f.Use(flamego.Renderer()) // an application-wide renderer with default options first: the later one decides
+	}
 	f.Use(flamego.Renderer(opt))
 	reqs := in.Field("reqs").Args()
 	nested := in.Field("nested").Args()[0].Atom == "1"
@@ -168,7 +171,7 @@ func runC17(in *Sx) *Sx {
 }
 
 func genC17(rng *rand.Rand, n int, tier string, emit func(*Sx)) {
-	strs := []string{"", "a", "hello world", "<&>\"'", "é☃", "line\nbreak", "\t", "{}[]", "100%", "%s %d%%", "x\x00y"}
+	strs := []string{"", "a", "hello world", "<&>\"'", "é☃", "line\nbreak", "\t", "{}[]", "100%", "%s %d%%", "x\x00y", "caf\xe9 \xff"}
 	codes := []int{200, 201, 202, 400, 404, 418, 500, 503, 299, 599, 700, 204, 304} // also codes net/http has no text for
 	for i := 0; i < n; i++ {
 		var reqs []*Sx
@@ -177,7 +180,7 @@ func genC17(rng *rand.Rand, n int, tier string, emit func(*Sx)) {
 			switch rng.Intn(4) {
 			case 0, 1:
 				kind := []string{"json", "xml"}[rng.Intn(2)]
-				pool := strs
+				pool := strs[:11] // text that is not valid UTF-8 goes through PlainText and Binary only (the encoders replace it)
 				if kind == "xml" {
 					pool = strs[:10] // NUL is not encodable in XML
 				}
@@ -199,7 +202,7 @@ func genC17(rng *rand.Rand, n int, tier string, emit func(*Sx)) {
 			}
 		}
 		emit(T("in", T("charset", X([]string{"", "", "utf-8", "iso-8859-1", "gbk", "UTF-8", "Shift_JIS"}[rng.Intn(7)])), T("jindent", X([]string{"", "", "  ", "\t"}[rng.Intn(4)])),
-			T("xindent", X([]string{"", "", "  ", "\t"}[rng.Intn(4)])), T("early", B(rng.Intn(12) == 0)), T("nested", B(rng.Intn(3) == 0)), T("prect", B(rng.Intn(4) == 0)), T("reqs", reqs...)))
+			T("xindent", X([]string{"", "", "  ", "\t"}[rng.Intn(4)])), T("early", B(rng.Intn(12) == 0)), T("nested", B(rng.Intn(3) == 0)), T("prect", B(rng.Intn(4) == 0)), T("outer", B(rng.Intn(4) == 0)), T("reqs", reqs...)))
 	}
 }
 
